@@ -1,4 +1,5 @@
-"""python3-vt -m vf.mutprobe [stmt|loops]: how much of a function do its contracts pin down?
+"""python3-vt -m vf.mutprobe [stmt|loops|harmless]: how much of a function do its contracts pin down -
+and do they stay quiet on rewrites that change nothing?
 
 For every function of /repo/sc3 under a pyvc contract, small changes are applied one at a time to a private
 scratch copy (outside /repo and /verif, removed at the end) and the function's contracts are re-run on it:
@@ -6,6 +7,10 @@ scratch copy (outside /repo and /verif, removed at the end) and the function's c
   stmt    every simple statement (call, assignment, augmented assignment, del) replaced by `pass`
   loops   every `for`/`while` under a loop contract: `break` appended to the body; `for x in xs` over xs[1:];
           `range(n)` over range(n - 1); `enumerate(xs)` over xs[:-1]
+  harmless  behaviour-preserving rewrites: each local variable renamed throughout its function; the value of
+          each simple assignment taken through a fresh temporary.  Here the question is the opposite one: a
+          VIOLATION would be a false alarm (undecided - function out of the subset, contract names a local that
+          no longer exists - is allowed and counted)
 
 A change is `caught` when an obligation stops discharging, `oos` when the function leaves the provable subset
 (reported as undecided by the checks; the bounded drivers decide), `SURVIVED` when every obligation still
@@ -30,7 +35,7 @@ from vf.pyvc.spec import REGISTRY                      # noqa: E402
 RUNNER = ("import sys, json\nfrom vf.pyvc import api\n"
           "r = api.verify(sys.argv[1], [sys.argv[2]], 'quick', 0, only=sys.argv[3])\n"
           "red = [x['name'] for x in r['results'] if x['result'] != 'unsat']\n"
-          "print(json.dumps({'red': red[:3], 'oos': len(r['out_of_subset']), 'n': r['obligations'],\n"
+          "print(json.dumps({'red': red[:3], 'oos': len(r['out_of_subset']), 'n': r['obligations'], 'viol': [v['obligation'] for v in r['violations']][:3],\n"
           "                  'err': [e[:80] for e in r['errors'] if 'required' not in e][:2]}))\n")
 
 
@@ -118,6 +123,66 @@ def loop_mutants(src, fn):
         yield lo.lineno, what, lines[:tgt.lineno - 1] + [new] + lines[tgt.lineno:]
 
 
+class _Rename(ast.NodeTransformer):
+    def __init__(self, old, new):
+        self.old, self.new = old, new
+
+    def visit_Name(self, n):
+        if n.id == self.old:
+            n.id = self.new
+        return n
+
+    def visit_Nonlocal(self, n):
+        n.names = [self.new if x == self.old else x for x in n.names]
+        return n
+
+
+def harmless_mutants(src, fn):
+    """behaviour-preserving rewrites: (a) a local variable renamed throughout the function, (b) the value of a
+    simple assignment taken through a fresh temporary.  None of them may produce a VIOLATION."""
+    import copy
+    tree = ast.parse(src)
+    params = {a.arg for a in fn.args.args + fn.args.kwonlyargs + fn.args.posonlyargs}
+    if fn.args.vararg:
+        params.add(fn.args.vararg.arg)
+    if fn.args.kwarg:
+        params.add(fn.args.kwarg.arg)
+    stored = sorted({n.id for n in ast.walk(fn) if isinstance(n, ast.Name) and isinstance(n.ctx, ast.Store)} - params)
+    declared = {x for n in ast.walk(fn) if isinstance(n, (ast.Global,)) for x in n.names}
+
+    def rebuilt(mutate):
+        t = copy.deepcopy(tree)
+        target = [n for n in ast.walk(t) if isinstance(n, ast.FunctionDef) and n.lineno == fn.lineno and n.name == fn.name][0]
+        mutate(target)
+        ast.fix_missing_locations(t)
+        return ast.unparse(t).split('\n')
+    for name in stored:
+        if name in declared or name.startswith('__'):
+            continue
+        yield fn.lineno, 'local %s renamed' % name, rebuilt(lambda f: _Rename(name, name + '_r9').visit(f))
+    k = 0
+    for n in ast.walk(fn):
+        if isinstance(n, ast.Assign) and len(n.targets) == 1 and isinstance(n.targets[0], ast.Name) \
+                and not isinstance(n.value, (ast.Yield, ast.YieldFrom, ast.Await)):
+            k += 1
+            ln, col = n.lineno, n.col_offset
+
+            def mut(f, ln=ln, col=col, k=k):
+                for parent in ast.walk(f):
+                    for field in ('body', 'orelse', 'finalbody'):
+                        body = getattr(parent, field, None)
+                        if not isinstance(body, list):
+                            continue
+                        for i, stmt in enumerate(body):
+                            if isinstance(stmt, ast.Assign) and stmt.lineno == ln and stmt.col_offset == col:
+                                tmp = 'tmp9_%d' % k
+                                first = ast.Assign(targets=[ast.Name(id=tmp, ctx=ast.Store())], value=stmt.value)
+                                stmt.value = ast.Name(id=tmp, ctx=ast.Load())
+                                body.insert(i, first)
+                                return
+            yield n.lineno, 'value of `%s = ...` through a temporary' % n.targets[0].id, rebuilt(mut)
+
+
 def lane(args):
     scr, tasks = args
     out = []
@@ -136,6 +201,9 @@ def lane(args):
                 except Exception:
                     status = 'error'
                     continue
+                if res.get('viol'):
+                    status, red = 'VIOLATION', res['viol']
+                    break
                 if res['red']:
                     status, red = 'caught', res['red']
                     break
@@ -163,7 +231,8 @@ def main():
             fn = find_fn(ast.parse(src), qual)
             if fn is None:
                 continue
-            for lineno, what, new in (stmt_mutants if mode == 'stmt' else loop_mutants)(src, fn):
+            gen = {'stmt': stmt_mutants, 'loops': loop_mutants, 'harmless': harmless_mutants}[mode]
+            for lineno, what, new in gen(src, fn):
                 if (pid, f, lineno, what) in done:
                     continue
                 done.add((pid, f, lineno, what))
@@ -186,7 +255,9 @@ def main():
         count[r['status']] = count.get(r['status'], 0) + 1
     with open(os.path.join(VERIF, 'mutprobe_%s.json' % mode), 'w') as fh:
         json.dump({'mode': mode, 'mutants': len(results), 'counts': count,
-                   'survivors': [r for r in results if r['status'] == 'SURVIVED'],
+                   'survivors': [r for r in results if r['status'] == 'SURVIVED'] if mode != 'harmless' else [],
+                   'alarms': [r for r in results if r['status'] == 'VIOLATION'] if mode == 'harmless' else [],
+                   'undecided': [r for r in results if r['status'] in ('caught', 'oos')] if mode == 'harmless' else [],
                    'errors': [r for r in results if r['status'] == 'error']}, fh, indent=1)
     print(mode, len(results), count)
 
